@@ -346,6 +346,16 @@ def micro_alphabet():
             ("r", "A:2", "A"), ("d", "A:1")]
 
 
+INTLIKE_PROBE_KEYS = ["1", "0", "-1", "A", "a", "1:1", "Z", "UNKNOWN"]
+
+
+def intlike_alphabet():
+    """integer-like mnemonics ("1", "0", "-1") that end up at positions other than the one they
+    spell, edited and probed through int keys 0, 1, -1 (s[int], del s[int], s[int] = item / value)"""
+    return [("a", "1"), ("a", "0"), ("a", "-1"), ("a", "A"), ("i", 0, "1"), ("i", 0, "A"),
+            ("e", 0), ("e", 1), ("e", -1), ("s", 0, "A"), ("s", 1, "0"), ("w", 1), ("w", -1), ("d", "1")]
+
+
 def sequences(alphabet, length, exact=True):
     lens = [length] if exact else range(1, length + 1)
     for n in lens:
@@ -353,7 +363,7 @@ def sequences(alphabet, length, exact=True):
             yield list(t)
 
 
-RAND_NAMES = NAMES + ["UNKNOWN", "unknown", "A:2", "a:1", "B:1", "UNKNOWN:1", "b", "AB", "A:01"]
+RAND_NAMES = NAMES + ["UNKNOWN", "unknown", "A:2", "a:1", "B:1", "UNKNOWN:1", "b", "AB", "A:01", "1", "0", "-1", "1", "0"]
 
 
 def random_template(rng, keys_hint):
